@@ -946,7 +946,7 @@ def run_execution(case: dict, *, max_invocations: int | None = None, hooks: dict
             rec.update({"sched": sched.outcome, "steps": sched.step, "t1": backend.now, "trace": list(sched.trace), "api_calls": boto.n,
                         "calls_after_failure": boto.calls_after_failure, "failed_at": boto.failed_at,
                         "deadlock_info": sched.deadlock_info, "switches": sched.switches, "abort_dump": sched.abort_dump,
-                        "line_yields": getattr(chooser, "total", None),
+                        "line_yields": getattr(chooser, "total", None), "steps_since_time_moved": sched.step - sched.last_advance_step, "step_cap": sched.step_cap,
                         "task_excs": [(t.name, type(t.exc).__name__, str(t.exc)[:200]) for t in sched.tasks if t.exc is not None and t is not sched.root],
                         "live_after_return": [t.name for t in sched.tasks if getattr(t, "_live_at_root_end", False)]})
             rec["active_user_at_end"] = snap.get("active", [])
